@@ -600,6 +600,29 @@ def kmer_lemmas(F, rep, tystr, which=None, slice_cap=32):
                             if i is not None and j is not None:
                                 eq = self.choose("base%d==compl(base%d)" % (i, j), (True, False))
                                 return eq if op == "Eq" else not eq
+                    if op in ("Eq", "Ne"):
+                        # any other comparison of two bit-vectors whose bits are XORs of the k-mer's bits (shifted / reversed / complemented /
+                        # masked copies of it): an affine condition on the k-mer, decided exactly by linear algebra over GF(2) — the outcome
+                        # is an oracle unless the conditions assumed so far already imply or contradict it
+                        from . import gf2
+                        eqs = gf2.vec_eqs(list(a.getbits()), list(b.getbits()))
+                        if eqs is not None:
+                            if not hasattr(self, "lin"):
+                                self.lin, self.lin_neg, self.lin_n = gf2.System(), [], 0
+                            st = [self.lin.status(e) for e in eqs]
+                            if all(x == "implied" for x in st):
+                                eq = True
+                            elif any(x == "contradicted" for x in st):
+                                eq = False
+                            else:
+                                self.lin_n += 1
+                                eq = self.choose("affine-comparison#%d" % self.lin_n, (True, False))
+                                if eq:
+                                    for e in eqs:
+                                        self.lin.add(e)
+                                else:
+                                    self.lin_neg.append(eqs)
+                            return eq if op == "Eq" else not eq
                     return None
 
                 def unknown_cmp(self, it, a, b):
@@ -627,6 +650,55 @@ def kmer_lemmas(F, rep, tystr, which=None, slice_cap=32):
                     inc = inc or ("undetermined result %r" % (out,))
                     continue
                 val = bool(out.val)
+                if hasattr(h, "lin"):
+                    # decided by affine comparisons: the answer must agree with "self = rc(self)" on EVERY k-mer consistent with the outcomes
+                    from . import gf2
+                    P = gf2.vec_eqs(list(S), list(rc_spec)) or []
+
+                    def letters(sol):
+                        out_ = ""
+                        for j in range(K):
+                            hi_, lo_ = kt.lane_bits(j)
+                            vb = lambda t: (1 if t == ONE else 0) if bv.t_is_const(t) is not None else sol.get(next(iter(next(iter(t)))), 0)
+                            out_ += "ACGT"[vb(S[lo_]) | (vb(S[hi_]) << 1)]
+                        return out_
+                    if not h.lin.consistent:
+                        continue
+                    wit = None
+                    if val:
+                        # true: every k-mer satisfying the assumed equalities (and failing the others) must be its own reverse complement
+                        for p_ in (P if K % 2 == 0 else [(frozenset(), 1)]):
+                            if h.lin.status(p_) != "implied":
+                                T2 = h.lin.copy()
+                                T2.add((p_[0], p_[1] ^ 1))
+                                if T2.consistent:
+                                    sol = T2.solution()
+                                    if all(any(not gf2.holds(e, sol) for e in neg) for neg in h.lin_neg):
+                                        wit = (sol, "returns true for %s, which is not its own reverse complement" % letters(sol))
+                                        break
+                    elif K % 2 == 0:
+                        TP = h.lin.copy()
+                        for p_ in P:
+                            TP.add(p_)
+                        if TP.consistent and len(h.lin_neg) <= 1:
+                            sol = None
+                            if not h.lin_neg:
+                                sol = TP.solution()
+                            else:
+                                for e in h.lin_neg[0]:
+                                    if TP.status(e) != "implied":
+                                        T3 = TP.copy()
+                                        T3.add((e[0], e[1] ^ 1))
+                                        if T3.consistent:
+                                            sol = T3.solution()
+                                            break
+                            if sol is not None:
+                                wit = (sol, "returns false for %s, which IS its own reverse complement" % letters(sol))
+                        elif TP.consistent:
+                            inc = inc or "several failed affine comparisons on one path"
+                    if wit is not None:
+                        bad = bad or ("is_palindrome %s (K = %d)" % (wit[1], K), a)
+                    continue
                 whole_eq = a.get("self==rc")
                 if whole_eq is None and "ord(self,rc)" in a:
                     whole_eq = a["ord(self,rc)"] == "="
